@@ -49,6 +49,7 @@ REQUIRED_LABELS = [
     "fresh:outdir_default",
     "fresh:outdir_rel",
     "fresh:outdir_holds_stale_outputs",
+    "fresh:cwd_holds_same_named_decoys",
     "hist:shared_outdir",
     "fresh:quiet_differs",
     "fresh:multi_file",
@@ -169,6 +170,7 @@ def shapes_(draw: Any) -> Shape:
         outdir=draw(st.sampled_from(["abs", "rel", "default", "default"])),
         quiet=draw(st.booleans()),
         stale=draw(st.sampled_from(["", "", "long", "short"])),
+        decoys=draw(st.booleans()),
     )
 
 
@@ -229,6 +231,8 @@ def run_fresh_case(c: FreshCase, stats: Stats) -> None:
             stats.count("fresh:quiet_differs")
         if sh.stale:
             stats.count("fresh:outdir_holds_stale_outputs")
+        if sh.decoys and sh.cwd != "src":
+            stats.count("fresh:cwd_holds_same_named_decoys")
         compare(
             (base.code, base.files),
             (run.code, run.files),
